@@ -446,6 +446,14 @@ func (rs *RelationService) createTable(r *Relation, tableName string) error {
 		return ErrTableAlreadyExist
 	}
 
+	// make sure every catalog row of the new table can be stored before the
+	// first one is: a column refused half-way (e.g. a VARCHAR length that does
+	// not fit the catalog's INT column, or names too long for one row) would
+	// leave a table with only some of its columns behind
+	if err := validateCatalogRows(r, tableName); err != nil {
+		return err
+	}
+
 	pg, err := rs.createPage()
 	if err != nil {
 		return err
@@ -454,6 +462,39 @@ func (rs *RelationService) createTable(r *Relation, tableName string) error {
 		return err
 	}
 	return rs.insertSchemaTable(r, tableName)
+}
+
+// validateCatalogRows encodes the sys_pages row and all sys_schema rows that
+// CREATE TABLE is about to insert and reports the first one that is invalid.
+func validateCatalogRows(r *Relation, tableName string) error {
+	rows := []Tuple{{
+		Relation: &pageTableSchema,
+		Vals: map[string]interface{}{
+			"table_name":  tableName,
+			"file_offset": int64(0),
+		},
+	}}
+	for _, fd := range r.Fields {
+		rows = append(rows, Tuple{
+			Relation: &schemaTableSchema,
+			Vals: map[string]interface{}{
+				"table_name":   tableName,
+				"field_name":   fd.Name,
+				"field_type":   int64(fd.DataType),
+				"field_length": fd.Len,
+			},
+		})
+	}
+	for _, row := range rows {
+		buf, err := row.Encode()
+		if err != nil {
+			return err
+		}
+		if err := checkRowSizeLimit(buf.Bytes()); err != nil {
+			return err
+		}
+	}
+	return nil
 }
 
 func (rs *RelationService) createPage() (*btreeNode, error) {
